@@ -29,3 +29,13 @@ pub enum Encoder {
     /// fqzcomp
     Fqzcomp,
 }
+
+#[cfg(noodles_verif)]
+#[doc(hidden)]
+pub mod verif_hooks {
+    //! Re-exports for verification harnesses (`--cfg noodles_verif`).
+    pub use super::{
+        fqzcomp::{decode as fqzcomp_decode, encode as fqzcomp_encode},
+        name_tokenizer::{decode as name_tokenizer_decode, encode as name_tokenizer_encode},
+    };
+}
